@@ -60,11 +60,7 @@ func memberFanout(in ssa.Instruction, field string, actions ...string) (done ssa
 				}
 				// the element reaches an action call (directly or through a local copy)
 				eachInstr(c.Parent(), func(i2 ssa.Instruction) {
-					c2 := callCommon(i2)
-					if c2 == nil || !callsNamed(i2, actions...) {
-						return
-					}
-					for _, a := range c2.Args {
+					for _, a := range actedOn(i2, actions) {
 						if a == ssa.Value(ld) || resolveLocalCopy(a) == ssa.Value(ld) {
 							act = i2
 						}
@@ -80,6 +76,47 @@ func memberFanout(in ssa.Instruction, field string, actions ...string) (done ssa
 		return nil, "the loop over the collected members " + w
 	}
 	return act, ""
+}
+
+// actedOn: the arguments of `in` that one of the actions is applied to — the call's own arguments
+// when it is an action, or, when it calls a module function that hands a parameter of its own to an
+// action on every path (a one-member helper such as "stop this member"), the arguments bound to
+// those parameters.
+func actedOn(in ssa.Instruction, actions []string) []ssa.Value {
+	cc := callCommon(in)
+	if cc == nil {
+		return nil
+	}
+	if callsNamed(in, actions...) {
+		return cc.Args
+	}
+	g := staticCallee(cc)
+	if g == nil || len(g.Blocks) == 0 || !fnInModule(g) || len(g.Params) != len(cc.Args) {
+		return nil
+	}
+	var out []ssa.Value
+	for k, prm := range g.Params {
+		var act ssa.Instruction
+		eachInstr(g, func(x ssa.Instruction) {
+			c2 := callCommon(x)
+			if c2 == nil || !callsNamed(x, actions...) {
+				return
+			}
+			for _, a := range c2.Args {
+				if a == ssa.Value(prm) || isParamValue(a, prm) {
+					act = x
+				}
+			}
+		})
+		if act == nil {
+			continue
+		}
+		// on every path: no return reachable from the entry without passing the action
+		if reaches([]Point{{g.Blocks[0], 0}}, func(x ssa.Instruction) bool { return x == act }, isReturn) == nil {
+			out = append(out, cc.Args[k])
+		}
+	}
+	return out
 }
 
 func isRangeOver(cc *ssa.CallCommon, field string) bool {
@@ -106,12 +143,12 @@ func closureAppliesToKey(fn *ssa.Function, actions []string) (bool, string) {
 	key := fn.Params[0]
 	found, any := false, false
 	eachInstr(fn, func(in ssa.Instruction) {
-		cc := callCommon(in)
-		if cc == nil || !callsNamed(in, actions...) {
+		args := actedOn(in, actions)
+		if args == nil {
 			return
 		}
 		any = true
-		for _, a := range cc.Args {
+		for _, a := range args {
 			if a == ssa.Value(key) || isParamValue(a, key) {
 				found = true
 			}
